@@ -578,6 +578,10 @@ func syncKind(nodes ...ast.Node) int {
 						kind = syncPre
 					}
 				}
+				// close(ch) wakes every receiver: they may run before the closer's next statement
+				if id, ok := n.Fun.(*ast.Ident); ok && id.Name == "close" && id.Obj == nil && len(n.Args) == 1 {
+					kind = syncBoth
+				}
 			}
 			return true
 		})
